@@ -114,6 +114,15 @@ def audit(module, theorems, timeout=900):
     return rc, res, out
 
 
+def recheck(modules, timeout=1500):
+    """Independent re-check of the compiled modules with leanchecker (replays every declaration of the .olean files through
+    a fresh kernel). Returns (ok, log, seconds)."""
+    t0 = time.time()
+    with Lock(exclusive=False):
+        rc, out = run(["lake", "env", "leanchecker", *modules], timeout=timeout)
+    return rc == 0, out, time.time() - t0
+
+
 def drive(lines, timeout=600):
     """Feed JSON-able ops to the native driver; returns parsed outputs (one per op)."""
     data = "\n".join(json.dumps(l) for l in lines) + "\n"
